@@ -894,6 +894,7 @@ def summarize(jobs, results, tier):
         for k in ("runs", "enter_failures", "unwound_blocks", "probes", "invariant_checks", "work_errors", "work_ok"):
             tot[k] += st[k]
         tot["max_depth"] = max(tot["max_depth"], st["max_depth"])
+        tot["twin_consultations"] = tot.get("twin_consultations", 0) + st.get("twin_consultations", 0)
         for k, v in st["faults_fired"].items():
             tot["faults_fired"][k] = tot["faults_fired"].get(k, 0) + v
         sites.update(st["fault_sites"])
@@ -924,6 +925,7 @@ def summarize(jobs, results, tier):
         "max_nesting_depth": tot["max_depth"],
         "probe_steps": tot["probes"],
         "work_steps_ok": tot["work_ok"],
+        "probe_user_rule_consultations_inside_library_blocks": tot.get("twin_consultations", 0),
         "work_steps_raising_genuinely": tot["work_errors"],
         "components": {
             "real": ["funsor (all of it, working tree)", "numpy", "multipledispatch", "opt_einsum", "contextlib"],
